@@ -1583,7 +1583,7 @@ func hasRangeForallM(u *Unit, env *SpecEnv, e *Spec, depth int) bool {
 		if c == nil {
 			continue
 		}
-		if c.Kind == SQuant && c.Op == "forall" && c.B != nil {
+		if c.Kind == SQuant && c.Op == "forall" && (c.B != nil || c.TypeName == "string" || c.TypeName == "int") {
 			return true
 		}
 		if c.Kind == SBinary && c.Op == "==>" && hasRangeForallM(u, env, c.B, depth+1) {
@@ -1739,6 +1739,17 @@ func (u *Unit) obligeClause(st *State, env *SpecEnv, e *Spec, kind, label string
 				s2.assume(fmt.Sprintf("(and (<= %s %s) (< %s %s))", lo, sk, sk, hi))
 				u.instantiate(s2, sk)
 				if err := check(s2, cenv.with(cj.Name, Val{T: tInt, Terms: []Term{sk}}), cj.A, depth+1); err != nil {
+					return err
+				}
+			case cj.Kind == SQuant && cj.Op == "forall" && cj.B == nil && (cj.TypeName == "string" || cj.TypeName == "int"):
+				// forall over all strings / ints (map keys): a fresh constant of that sort
+				s2 := cs.clone()
+				sort, bt := "Int", types.Type(tInt)
+				if cj.TypeName == "string" {
+					sort, bt = "Str", tStr
+				}
+				sk := u.fresh(s2, "sk_"+cj.Name, sort)
+				if err := check(s2, cenv.with(cj.Name, Val{T: bt, Terms: []Term{sk}}), cj.A, depth+1); err != nil {
 					return err
 				}
 			case cj.Kind == SCall && cj.A == nil && !folding && u.unfoldOf(cj) != nil:
